@@ -572,9 +572,12 @@ impl GlyphClosure for ContextFormat1<'_> {
                     } else if sequence_idx == 0 {
                         Some(IntSet::from([coverage.iter().nth(i).unwrap()]))
                     } else {
-                        Some(IntSet::from([rule.input_sequence()
-                            [sequence_idx as usize - 1]
-                            .get()]))
+                        // a record that points past the input sequence applies to nothing
+                        let Some(glyph) = rule.input_sequence().get(sequence_idx as usize - 1)
+                        else {
+                            continue;
+                        };
+                        Some(IntSet::from([glyph.get()]))
                     };
                     ctx.add_todo(lookup_id, active_glyphs);
                 }
